@@ -52,6 +52,8 @@ func knownFuncSet() map[string]bool {
 
 func funcKey(rel string, obj *types.Func) string { return rel + "\t" + funcName(obj) }
 
+func typeKey(rel, name string) string { return rel + "\ttype " + name }
+
 func relOf(pkgPath string) string {
 	return strings.TrimPrefix(strings.TrimPrefix(pkgPath, modPath), "/")
 }
@@ -69,6 +71,11 @@ func dumpFuncs(p *Prog) {
 				if fd, ok := d.(*ast.FuncDecl); ok {
 					if obj, _ := pk.TypesInfo.Defs[fd.Name].(*types.Func); obj != nil {
 						out = append(out, funcKey(rel, obj))
+					}
+				}
+				if gd, ok := d.(*ast.GenDecl); ok && gd.Tok == token.TYPE {
+					for _, sp := range gd.Specs {
+						out = append(out, typeKey(rel, sp.(*ast.TypeSpec).Name.Name))
 					}
 				}
 			}
@@ -117,30 +124,44 @@ func (p *Prog) Normalise() []string {
 	}
 	nz := &normaliser{p: p, known: knownFuncSet()}
 	var allNotes []string
-	// local aggregates first (one pass; the tree the rules were written for has none that qualifies)
-	nz.changed = map[*ast.File]bool{}
-	nz.sra()
-	if len(nz.changed) > 0 {
-		allNotes = append(allNotes, nz.notes...)
-		if err := nz.reparseAndCheck(); err != nil {
-			panic(normaliseFailure{err})
-		}
-	}
-	for round := 0; round < 8; round++ {
+	// local aggregates first (the tree the rules were written for has none that qualifies), then the helpers; expanding a
+	// helper can leave an aggregate that is only read field by field (a closure turned into a struct with a method),
+	// so the two alternate until nothing changes
+	for outer := 0; outer < 4; outer++ {
+		progress := false
 		nz.changed = map[*ast.File]bool{}
 		nz.notes = nil
-		nz.collect()
-		if len(nz.helpers) == 0 {
-			break
+		nz.sra()
+		if outer > 0 {
+			nz.copyProp()
 		}
-		nz.rewriteAll()
-		nz.dropUnused()
-		if len(nz.changed) == 0 {
-			break
+		if len(nz.changed) > 0 {
+			progress = true
+			allNotes = append(allNotes, nz.notes...)
+			if err := nz.reparseAndCheck(); err != nil {
+				panic(normaliseFailure{err})
+			}
 		}
-		allNotes = append(allNotes, nz.notes...)
-		if err := nz.reparseAndCheck(); err != nil {
-			panic(normaliseFailure{err})
+		for round := 0; round < 8; round++ {
+			nz.changed = map[*ast.File]bool{}
+			nz.notes = nil
+			nz.collect()
+			if len(nz.helpers) == 0 {
+				break
+			}
+			nz.rewriteAll()
+			nz.dropUnused()
+			if len(nz.changed) == 0 {
+				break
+			}
+			progress = true
+			allNotes = append(allNotes, nz.notes...)
+			if err := nz.reparseAndCheck(); err != nil {
+				panic(normaliseFailure{err})
+			}
+		}
+		if !progress || len(allNotes) == 0 {
+			break
 		}
 	}
 	if nzDebug {
@@ -2640,6 +2661,14 @@ func (nz *normaliser) sraFunc(pk *packages.Package, info *types.Info, fd *ast.Fu
 	}
 	cands := map[*types.Var]*cand{}
 	localStruct := func(t types.Type) *types.Struct {
+		if p, ok := t.(*types.Pointer); ok {
+			// b := &T{...}: only for the unknown package-level types below
+			if n, ok := p.Elem().(*types.Named); ok && nz.unknownType(n) {
+				st, _ := n.Underlying().(*types.Struct)
+				return st
+			}
+			return nil
+		}
 		switch x := t.(type) {
 		case *types.Struct:
 			return x
@@ -2649,6 +2678,13 @@ func (nz *normaliser) sraFunc(pk *packages.Package, info *types.Info, fd *ast.Fu
 				if st, ok := x.Underlying().(*types.Struct); ok && x.NumMethods() == 0 {
 					return st
 				}
+			}
+			// a package-level struct type the tree the rules were written for does not have (a closure's captured
+			// variables turned into a struct, an argument pack): a variable of it that is only ever read and written
+			// field by field is that many variables
+			if nz.unknownType(x) {
+				st, _ := x.Underlying().(*types.Struct)
+				return st
 			}
 		}
 		return nil
@@ -2677,6 +2713,8 @@ func (nz *normaliser) sraFunc(pk *packages.Package, info *types.Info, fd *ast.Fu
 						if !sraLiteral(vs.Values[0], stt, c.fields) {
 							c.ok = false
 						}
+					} else if _, isPtr := v.Type().(*types.Pointer); isPtr {
+						c.ok = false
 					}
 					cands[v] = c
 				}
@@ -2760,7 +2798,7 @@ func (nz *normaliser) sraFunc(pk *packages.Package, info *types.Info, fd *ast.Fu
 		}
 		// field type expressions: only for struct types whose syntax we can reach (anonymous struct in the declaration, or
 		// a local type declaration); otherwise give up
-		ftypes := sraFieldTypes(info, fd, c.v)
+		ftypes := sraFieldTypes(pk, info, fd, c.v)
 		if ftypes == nil {
 			continue
 		}
@@ -2872,10 +2910,40 @@ func (nz *normaliser) sraFunc(pk *packages.Package, info *types.Info, fd *ast.Fu
 			}
 			return ast.NewIdent(prefix + sel.Sel.Name)
 		})
+		// a field variable that is declared empty and given its value by the first statement that mentions it is declared there
+		for i := 0; i < c.st.NumFields(); i++ {
+			fn := c.st.Field(i).Name()
+			if _, hasInit := c.fields[fn]; hasInit {
+				continue
+			}
+			if _, isAlias := aliasOf[fn]; isAlias {
+				continue
+			}
+			sraLateDefine(info, fd.Body, prefix+fn, c.st.Field(i).Type())
+		}
 		changed = true
 		nz.notes = append(nz.notes, fmt.Sprintf("local aggregate %s of %s split into its fields", c.v.Name(), fd.Name.Name))
 	}
 	return changed
+}
+
+// unknownType: a package-level named type of an SDK package that is not in the known list.
+func (nz *normaliser) unknownType(n *types.Named) bool {
+	o := n.Obj()
+	if o == nil || o.Pkg() == nil || o.Parent() != o.Pkg().Scope() || n.TypeArgs().Len() > 0 || n.TypeParams().Len() > 0 {
+		return false
+	}
+	if !strings.HasPrefix(o.Pkg().Path(), modPath) {
+		return false
+	}
+	rel := relOf(o.Pkg().Path())
+	isSDK := false
+	for _, r := range sdkPkgs {
+		if r == rel {
+			isSDK = true
+		}
+	}
+	return isSDK && !nz.known[typeKey(rel, o.Name())]
 }
 
 // sraDefineOK: `name := init` declares a variable of exactly the field's type.
@@ -2902,7 +2970,11 @@ func sraDefineOK(info *types.Info, init ast.Expr, ft types.Type) bool {
 
 // sraLiteral: e is a composite literal of the struct with keyed (or no) elements; the field initialisers are collected.
 func sraLiteral(e ast.Expr, st *types.Struct, out map[string]ast.Expr) bool {
-	cl, ok := ast.Unparen(e).(*ast.CompositeLit)
+	e = ast.Unparen(e)
+	if u, isU := e.(*ast.UnaryExpr); isU && u.Op == token.AND {
+		e = ast.Unparen(u.X)
+	}
+	cl, ok := e.(*ast.CompositeLit)
 	if !ok {
 		return false
 	}
@@ -2927,8 +2999,26 @@ func sraLiteral(e ast.Expr, st *types.Struct, out map[string]ast.Expr) bool {
 
 // sraFieldTypes returns the type expression of each field of v's struct type, from the syntax of the anonymous struct
 // in v's declaration or of the local type declaration.
-func sraFieldTypes(info *types.Info, fd *ast.FuncDecl, v *types.Var) map[string]ast.Expr {
+func sraFieldTypes(pk *packages.Package, info *types.Info, fd *ast.FuncDecl, v *types.Var) map[string]ast.Expr {
 	var stx *ast.StructType
+	vt := v.Type()
+	if p, ok := vt.(*types.Pointer); ok {
+		vt = p.Elem()
+	}
+	if n, ok := vt.(*types.Named); ok && n.Obj().Pkg() == pk.Types && n.Obj().Parent() == pk.Types.Scope() {
+		for _, f := range pk.Syntax {
+			for _, d := range f.Decls {
+				if gd, ok := d.(*ast.GenDecl); ok && gd.Tok == token.TYPE {
+					for _, sp := range gd.Specs {
+						ts := sp.(*ast.TypeSpec)
+						if info.Defs[ts.Name] == types.Object(n.Obj()) {
+							stx, _ = ts.Type.(*ast.StructType)
+						}
+					}
+				}
+			}
+		}
+	}
 	ast.Inspect(fd.Body, func(n ast.Node) bool {
 		switch x := n.(type) {
 		case *ast.TypeSpec:
@@ -2971,4 +3061,270 @@ func sraFieldTypes(info *types.Info, fd *ast.FuncDecl, v *types.Var) map[string]
 		}
 	}
 	return out
+}
+
+// copyProp removes the normaliser's own immutable copies: a local whose name the normaliser made (…Zq<n>), defined once
+// from a plain local variable or parameter that is itself never reassigned and never has its address taken, is just
+// another name for that variable. Every use is replaced where the original name still means the original variable.
+func (nz *normaliser) copyProp() {
+	for _, rel := range sdkPkgs {
+		pk := nz.p.Pkg(rel)
+		if pk == nil {
+			continue
+		}
+		info := pk.TypesInfo
+		for _, f := range pk.Syntax {
+			for _, d := range f.Decls {
+				fd, ok := d.(*ast.FuncDecl)
+				if !ok || fd.Body == nil {
+					continue
+				}
+				if nz.copyPropFunc(pk, info, fd) {
+					nz.changed[f] = true
+				}
+			}
+		}
+	}
+}
+
+func (nz *normaliser) copyPropFunc(pk *packages.Package, info *types.Info, fd *ast.FuncDecl) bool {
+	// writes and address-taking per variable
+	nWrites := map[types.Object]int{}
+	addr := map[types.Object]bool{}
+	for _, w := range Writes(fd.Body, true) {
+		if id, ok := ast.Unparen(w.LHS).(*ast.Ident); ok {
+			if o := info.Uses[id]; o != nil {
+				nWrites[o]++
+			}
+		}
+	}
+	ast.Inspect(fd.Body, func(n ast.Node) bool {
+		if u, ok := n.(*ast.UnaryExpr); ok && u.Op == token.AND {
+			if id, ok := ast.Unparen(u.X).(*ast.Ident); ok {
+				if o := info.Uses[id]; o != nil {
+					addr[o] = true
+				}
+			}
+		}
+		return true
+	})
+	stable := func(o types.Object) bool {
+		v, ok := o.(*types.Var)
+		if !ok || v.IsField() || v.Pkg() == nil || v.Parent() == nil || v.Parent() == v.Pkg().Scope() {
+			return false
+		}
+		return nWrites[o] == 0 && !addr[o]
+	}
+	alias := map[types.Object]*types.Var{}
+	ast.Inspect(fd.Body, func(n ast.Node) bool {
+		as, ok := n.(*ast.AssignStmt)
+		if !ok || as.Tok != token.DEFINE || len(as.Lhs) != len(as.Rhs) {
+			return true
+		}
+		for i, l := range as.Lhs {
+			lid, ok := l.(*ast.Ident)
+			if !ok || !strings.Contains(lid.Name, "Zq") {
+				continue
+			}
+			lo := info.Defs[lid]
+			rid, ok := ast.Unparen(as.Rhs[i]).(*ast.Ident)
+			if lo == nil || !ok || !stable(lo) {
+				continue
+			}
+			ro, _ := info.Uses[rid].(*types.Var)
+			if ro == nil || !stable(ro) || !types.Identical(lo.Type(), ro.Type()) {
+				continue
+			}
+			alias[lo] = ro
+		}
+		return true
+	})
+	if len(alias) == 0 {
+		return false
+	}
+	// the original name must mean the original variable at every use of the copy
+	for id, o := range info.Uses {
+		src := alias[o]
+		if src == nil || id.Pos() < fd.Body.Pos() || id.Pos() > fd.Body.End() {
+			continue
+		}
+		inner := pk.Types.Scope().Innermost(id.Pos())
+		if inner == nil {
+			delete(alias, o)
+			continue
+		}
+		if _, found := inner.LookupParent(src.Name(), id.Pos()); found != types.Object(src) {
+			delete(alias, o)
+		}
+	}
+	if len(alias) == 0 {
+		return false
+	}
+	replaceExprs(fd.Body, func(e ast.Expr) ast.Expr {
+		id, ok := e.(*ast.Ident)
+		if !ok {
+			return nil
+		}
+		if src := alias[info.Uses[id]]; src != nil {
+			return ast.NewIdent(src.Name())
+		}
+		return nil
+	})
+	// the defining statements: the copy's slot becomes the blank identifier; a definition with nothing left to define goes
+	var rm []ast.Stmt
+	ast.Inspect(fd.Body, func(n ast.Node) bool {
+		as, ok := n.(*ast.AssignStmt)
+		if !ok || as.Tok != token.DEFINE || len(as.Lhs) != len(as.Rhs) {
+			return true
+		}
+		left := 0
+		touched := false
+		for i, l := range as.Lhs {
+			lid, ok := l.(*ast.Ident)
+			if ok && alias[info.Defs[lid]] != nil {
+				as.Lhs[i] = ast.NewIdent("_")
+				touched = true
+				continue
+			}
+			if ok && lid.Name == "_" {
+				continue
+			}
+			left++
+		}
+		if touched && left == 0 {
+			pure := true
+			for _, r := range as.Rhs {
+				if _, isId := ast.Unparen(r).(*ast.Ident); !isId {
+					pure = false
+				}
+			}
+			if pure {
+				rm = append(rm, as)
+			} else {
+				as.Tok = token.ASSIGN
+			}
+		}
+		return true
+	})
+	for _, st := range rm {
+		removeStmt(fd.Body, st)
+	}
+	for o, src := range alias {
+		nz.notes = append(nz.notes, fmt.Sprintf("copy %s of %s in %s replaced by the original", o.Name(), src.Name(), fd.Name.Name))
+	}
+	return true
+}
+
+// removeStmt deletes st from the statement list (or the init slot) that holds it.
+func removeStmt(root ast.Node, st ast.Stmt) {
+	cut := func(list []ast.Stmt) []ast.Stmt {
+		for i, x := range list {
+			if x == st {
+				return append(append([]ast.Stmt(nil), list[:i]...), list[i+1:]...)
+			}
+		}
+		return list
+	}
+	ast.Inspect(root, func(n ast.Node) bool {
+		switch b := n.(type) {
+		case *ast.BlockStmt:
+			b.List = cut(b.List)
+		case *ast.CaseClause:
+			b.Body = cut(b.Body)
+		case *ast.CommClause:
+			b.Body = cut(b.Body)
+		case *ast.IfStmt:
+			if b.Init == st {
+				b.Init = nil
+			}
+		case *ast.ForStmt:
+			if b.Init == st {
+				b.Init = nil
+			}
+		case *ast.SwitchStmt:
+			if b.Init == st {
+				b.Init = nil
+			}
+		case *ast.TypeSwitchStmt:
+			if b.Init == st {
+				b.Init = nil
+			}
+		}
+		return true
+	})
+}
+
+// sraLateDefine: `var name T; _ = name; …; name = E` (same statement list, name not mentioned in between, E does not
+// mention name) becomes `…; name := E; _ = name`.
+func sraLateDefine(info *types.Info, body *ast.BlockStmt, name string, ft types.Type) {
+	mentions := func(n ast.Node) bool {
+		found := false
+		ast.Inspect(n, func(x ast.Node) bool {
+			if id, ok := x.(*ast.Ident); ok && id.Name == name {
+				found = true
+			}
+			return !found
+		})
+		return found
+	}
+	done := false
+	fix := func(list []ast.Stmt) []ast.Stmt {
+		for i, st := range list {
+			ds, ok := st.(*ast.DeclStmt)
+			if !ok {
+				continue
+			}
+			gd := ds.Decl.(*ast.GenDecl)
+			if gd.Tok != token.VAR || len(gd.Specs) != 1 {
+				continue
+			}
+			vs := gd.Specs[0].(*ast.ValueSpec)
+			if len(vs.Names) != 1 || vs.Names[0].Name != name || len(vs.Values) != 0 {
+				continue
+			}
+			done = true
+			if i+1 >= len(list) {
+				return list
+			}
+			// list[i+1] is `_ = name`
+			for j := i + 2; j < len(list); j++ {
+				if !mentions(list[j]) {
+					continue
+				}
+				as, ok := list[j].(*ast.AssignStmt)
+				if !ok || as.Tok != token.ASSIGN || len(as.Lhs) != 1 || len(as.Rhs) != 1 || mentions(as.Rhs[0]) {
+					return list
+				}
+				if id, ok := as.Lhs[0].(*ast.Ident); !ok || id.Name != name {
+					return list
+				}
+				var def ast.Stmt
+				if sraDefineOK(info, as.Rhs[0], ft) {
+					def = &ast.AssignStmt{Lhs: []ast.Expr{ast.NewIdent(name)}, Tok: token.DEFINE, Rhs: as.Rhs}
+				} else {
+					def = &ast.DeclStmt{Decl: &ast.GenDecl{Tok: token.VAR, Specs: []ast.Spec{&ast.ValueSpec{Names: []*ast.Ident{ast.NewIdent(name)}, Type: vs.Type, Values: as.Rhs}}}}
+				}
+				out := append([]ast.Stmt(nil), list[:i]...)
+				out = append(out, list[i+2:j]...)
+				out = append(out, def, list[i+1])
+				return append(out, list[j+1:]...)
+			}
+			return list
+		}
+		return list
+	}
+	ast.Inspect(body, func(n ast.Node) bool {
+		if done {
+			return false
+		}
+		switch b := n.(type) {
+		case *ast.BlockStmt:
+			b.List = fix(b.List)
+		case *ast.CaseClause:
+			b.Body = fix(b.Body)
+		case *ast.CommClause:
+			b.Body = fix(b.Body)
+		}
+		return !done
+	})
 }
